@@ -6,7 +6,7 @@ namespace {
 
 const uint32_t MARKS[6] = {4, 7, 8, 14, 889, 890};
 
-void one_case(Ctx &c) {
+void case_impl(Ctx &c, bool clientrec) {
   Sim s(c); World w(s);
   s.nodeid = (uint8_t)(1 + c.t.below(127));
   w.mandatory(false);     // 1200h/1201h read-only: junk must not be able to switch a server off legitimately
@@ -17,6 +17,15 @@ void one_case(Ctx &c) {
   w.add_domain(0x2007, 0, 1 + c.t.below(4), true, true, (uint32_t)iv.next());
   w.add_int(0x2008, 0, 2, true, true, true, true, (uint32_t)iv.next());
   w.add_string(0x2009, 0, 1 + c.t.below(30), (uint32_t)iv.next());
+  // mode with-client-records: the dictionary also holds the SDO client parameter records 1280h.. with COB-ID entries of type CO_TSDO_ID (as the
+  // repository's own test dictionaries declare them); nothing a client does to them may take an SDO server out of service
+  if (clientrec) for (int k = 0; k < CO_SSDO_N; k++) {
+    s.add(CO_KEY(0x1280 + k, 0, CO_OBJ_D___R_), CO_TUNSIGNED8, 3);
+    s.add(CO_KEY(0x1280 + k, 1, CO_OBJ_____RW), CO_TSDO_ID, (CO_DATA)s.var<uint32_t>("128x:1", 0x600u + 0x20 + k));
+    s.add(CO_KEY(0x1280 + k, 2, CO_OBJ_____RW), CO_TSDO_ID, (CO_DATA)s.var<uint32_t>("128x:2", 0x580u + 0x20 + k));
+    s.add(CO_KEY(0x1280 + k, 3, CO_OBJ_____RW), CO_TUNSIGNED8, (CO_DATA)s.var<uint8_t>("128x:3", (uint8_t)(0x20 + k)));
+  }
+  int recwrites = 0;
   w.finish();
   std::vector<std::pair<uint16_t, uint8_t>> mux = {{0x2001, 0}, {0x2002, 0}, {0x2006, 0}, {0x2007, 0}, {0x2008, 0}, {0x2009, 0}, {0x1000, 0}, {0x1018, 1}, {0x3000, 0}, {0x2001, 1}};
   int nsrv = CO_SSDO_N;
@@ -36,8 +45,15 @@ void one_case(Ctx &c) {
   while ((nj < (int)junkbudget && !c.t.exhausted()) || (end_with_open_transfer && !final_round)) {
     if (!(nj < (int)junkbudget && !c.t.exhausted())) final_round = true;
     int n = nsrv > 1 ? (c.t.chance(190) ? target : 1 - target) : 0;
-    uint32_t how = c.t.below(10);
+    uint32_t how = c.t.below(clientrec ? 12 : 10);
     if (final_round) { n = target; how = 1; }
+    if (how >= 10) {         // a conforming expedited write to a COB-ID of an SDO client record: switched off, on again, or moved while off
+      int k = CO_SSDO_N > 1 ? (int)c.t.below(2) : 0; uint8_t sub = (uint8_t)(1 + c.t.below(2));
+      uint32_t v = (sub == 1 ? 0x600u : 0x580u) + 0x20 + c.t.below(4); if (c.t.below(3) != 0) v |= 0x80000000u;
+      Frame f; f.id = w.req[n]; f.dlc = 8; f.d[0] = 0x23; f.d[1] = (uint8_t)(0x80 + k); f.d[2] = 0x12; f.d[3] = sub; for (int i = 0; i < 4; i++) f.d[4 + i] = (uint8_t)(v >> (8 * i));
+      VLOG(c, " [srv%d] write %08X to %04X:%u", n, v, 0x1280 + k, sub);
+      s.clear_tx(); s.rx(f); nj++; recwrites++; c.ops++; continue;
+    }
     if (how == 0) {          // a run of block segments
       uint32_t len = 1 + c.t.below(130), start = c.t.coin() ? 1 : 1 + c.t.below(127);
       VLOG(c, " [srv%d] run of %u block segments from seq %u", n, len, start);
@@ -108,7 +124,11 @@ void one_case(Ctx &c) {
   if (nonidle) c.nontrivial = true;
   c.cls(nonidle ? "recovery-from-non-idle-state" : "recovery-from-idle-state");
   c.cls(by_reset ? "recovery-by-nmt-reset" : "recovery-by-client-abort");
+  if (recwrites) c.cls("client-record-cob-id-written");
 }
+
+void one_case(Ctx &c) { case_impl(c, false); }
+void rec_case(Ctx &c) { case_impl(c, true); }
 
 Registrar reg(Prop{
     "C05",
@@ -117,7 +137,8 @@ Registrar reg(Prop{
     "then 1..2 clean probe transfers from a covering set {expedited, segmented, block} x {upload, download} x {small, large object} run by the reference client. "
     "Oracle: the probe's outcome equals the reference outcome computed from the storage as it is when the probe starts (uploads return those bytes, downloads are confirmed and land exactly; every probe request is answered). "
     "Non-trivial: the server was not idle (block state, attached object or buffered bytes) when the recovery step started; the class histogram reports every distinct abstract server state (block state, object attached, toggle, buffer fill bucket, segment direction) from which recovery was checked. Distinct = distinct decoded choice sequence.",
-    {Mode{"random", one_case, false, 900000, 20000000, 0, 0, 320, 640}},
+    {Mode{"random", one_case, false, 900000, 20000000, 0, 0, 320, 640},
+     Mode{"with-client-records", rec_case, false, 250000, 5000000, 0, 0, 320, 640}},
     {"1200h/1201h are read-only (otherwise junk could legitimately disable a server)", "the abstract state is read from the public CO_SDO structure for classification only"}});
 
 }  // namespace
